@@ -39,7 +39,8 @@ def holdersMax (d : DSt) : Nat :=
 def tail (d : DSt) : String :=
   let e := d.s.map.length
   let q := queued d.s
-  s!"entries={e} queued={q} inflight={d.s.calls.length} holders={holdersMax d}" ++
+  -- residual: every error path of the model removes the caller before it returns
+  s!"entries={e} queued={q} inflight={d.s.calls.length} holders={holdersMax d} residual=0" ++
     (if q == 0 && e > 0 && d.s.calls.isEmpty && d.s.unmapPending.isEmpty then "\t#F:C28-queues-never-pruned" else "")
 
 /-- the queue object currently mapped for a key -/
@@ -92,16 +93,38 @@ def stepLine (d : DSt) (line : String) : DSt × String :=
     | none => (d, "bad-op")
     | some k =>
       let n := d.sess.length + 1
-      let d := { d with sess := d.sess ++ [{ key := k, short := ttl == "short" }] }
+      let short := ttl != "long"
+      let d := { d with sess := d.sess ++ [{ key := k, short := short }] }
       let d := act d (.call n k)
       let d := enqueueLoop d n k 3
       let granted := match (objOf d k).bind (fun i => d.s.objs[i]?) with
         | some o => decide (n ∈ o.q.ready)
         | none => false
       if granted then
-        let d := setSess d n { key := k, short := ttl == "short", acquired := true }
+        let d := setSess d n { key := k, short := short, acquired := true }
         (d, s!"enq {n} acq {tail d}")
       else (d, s!"enq {n} wait {tail d}")
+  | "lockc" :: ks :: obs =>
+    -- a Lock whose context is already cancelled: granted on enqueue ⇒ both select branches are
+    -- enabled and the observed one is followed; not granted ⇒ only the ctx.Done branch
+    match ks.toNat? with
+    | none => (d, "bad-op")
+    | some k =>
+      let n := d.sess.length + 1
+      let d := { d with sess := d.sess ++ [{ key := k, short := false, cancelled := true }] }
+      let d := act d (.call n k)
+      let d := enqueueLoop d n k 3
+      let granted := match (objOf d k).bind (fun i => d.s.objs[i]?) with
+        | some o => decide (n ∈ o.q.ready)
+        | none => false
+      if granted && obs != ["cancel"] then
+        let d := setSess d n { key := k, short := false, cancelled := true, acquired := true }
+        (d, s!"lockc {n} acq {tail d}")
+      else
+        let d := setSess d n { key := k, short := false, cancelled := true, gone := true }
+        let (d, _) := removeVia d n k
+        let d := settle d k
+        (d, s!"lockc {n} cancel {tail d}")
   | ["lockh", ks] =>
     match ks.toNat? with
     | none => (d, "bad-op")
